@@ -50,7 +50,9 @@ def cases(tier):
     if tier == "quick":
         # the block recogniser's 'incomplete block swallows the rest' rule (second anchor of C08) is checked exactly at leaf level
         return [lemma(4), buflogic(5), buflogic(6, overrun=1, bufsz=4), buflogic(5, overrun=1, bufsz=2), c13.leaf(8, 8)]
-    return [c13.leaf(8, 12, 3000), lemma(5, 6000), lemma(6, 9000, "cadical"), buflogic(6, timeout=3000), buflogic(7, timeout=6000), buflogic(8, overrun=1, bufsz=5, timeout=3000), mk(3, 0, 9000, "cadical")]
+    return [c13.leaf(8, 12, 3000), lemma(5, 6000), lemma(6, 9000, "cadical"), buflogic(6, timeout=3000), buflogic(7, timeout=6000), buflogic(8, overrun=1, bufsz=5, timeout=3000)]
+    # the end-to-end differential variant (two contexts, real SCPI_Input + SCPI_Parse on symbolic text, `mk`) is not a
+    # registered case: 3-byte streams exceed 12 GB without a verdict
 
 
 META = dict(
@@ -58,5 +60,5 @@ META = dict(
     outside=["streams longer than the bound", "streams that overrun the input buffer (C01 covers the overrun guard)",
              "what SCPI_Parse does with a message (C02/C05/C06/C09): chunking only decides which bytes form a message"],
     assumptions=["chunks are non-empty (a zero-length call is the flush request and is checked separately)"],
-    explanation="differential bounded model checking of the real SCPI_Input on two contexts fed the same stream with different chunkings",
+    explanation="stability lemma on the real unit detector + functional specification of the real SCPI_Input buffer logic + block recogniser leaf check; chunking invariance follows by induction over units and chunks",
 )
